@@ -16,7 +16,7 @@ func init() {
 	register(&propDef{
 		ID: "C20",
 		Meta: propMeta{
-			Explanation: "Structural necessary conditions of the health property, decided on the SSA form of package server: (R20a) no select-loop can re-enter its select from the case that receives from a close-signalling channel (a closed channel is always ready, so re-entry is a busy spin) — module-wide, with the server's health loop as required instance; (R20b) the package-level health counters are written only by the initialiser and the checker and every access after the loop goroutine is started holds healthMu; (R20c) Server.Close closes the channel the loop selects on, exactly once, and exactly one loop goroutine is started; (R20d) Healthy() can return true only on a path where Disabled is false, the staleness comparison (elapsed > 3*interval) is false, and its value is (counter > 0); (R20e) the value the checker stores into the counter is the configured N exactly when no token failed, otherwise counter-1 guarded by counter>0, otherwise unchanged; a token counts as failed exactly when Ping returned an error. (R20f) every completed check refreshes healthLastPing on every path (staleness means the checker stopped, not that tokens fail); the worker's periodic check runs Ping in its own goroutine and waits in a select that includes the timeout context's Done channel, so a token whose Ping ignores its context cannot wedge the loop.",
+			Explanation: "Structural necessary conditions of the health property, decided on the SSA form of package server: (R20a) no select-loop can re-enter its select from the case that receives from a close-signalling channel (a closed channel is always ready, so re-entry is a busy spin) — module-wide, with the server's health loop as required instance; (R20b) the package-level health counters are written only by the initialiser and the checker and every access after the loop goroutine is started holds healthMu; (R20c) Server.Close closes the channel the loop selects on, exactly once, and exactly one loop goroutine is started; (R20d) Healthy() can return true only on a path where Disabled is false, the staleness comparison (elapsed > 3*interval) is false, and its value is (counter > 0); (R20e) the value the checker stores into the counter is the configured N exactly when no token failed, otherwise counter-1 guarded by counter>0, otherwise unchanged; a token counts as failed exactly when Ping returned an error. (R20f) every completed check refreshes healthLastPing on every path (staleness means the checker stopped, not that tokens fail); the worker's periodic check runs Ping in its own goroutine and waits in a select that includes the timeout context's Done channel, so a token whose Ping ignores its context cannot wedge the loop. (R20g) the worker token's retry loop reports failure when its attempts are exhausted (the rules of C15 R15a-c on doRetry, which Ping goes through); (R20h) every module type that wraps a token.Token and defines its own Ping returns nil only as the result of the wrapped token's Ping.",
 			NotDecided:  "the arithmetic over whole check histories and elapsed time (no execution, no model of time); that Ping itself reflects token state.",
 			Assumptions: []string{"a receive from a closed channel never blocks (Go spec)", "sync.Mutex provides mutual exclusion"},
 		},
@@ -363,6 +363,17 @@ func runC20(c *Ctx) {
 	// ---- R20e healthCheck hysteresis
 	c20Hysteresis(c, re)
 	c20Liveness(c)
+	c.Rule("R20g", "a worker token's ping fails when its retries are exhausted: doRetry returns a nil error only after a successful attempt (shared with C15 R15a-c)", 2)
+	if dr := c.P.Func("token/worker.(*WorkerToken).doRetry"); dr == nil {
+		c.Undecided("R20g", "(*WorkerToken).doRetry", "-", "function not found")
+	} else {
+		c15Retry(c, dr, "R20g", "R20g", "R20g")
+	}
+	c.Rule("R20h", "a token wrapper with its own Ping answers with the wrapped token's answer", 0)
+	for _, f := range pingForwards(c.P) {
+		c.Check(f.OK, "R20h", f.Key, f.Pos, "", f.Detail)
+	}
+	c.runControl("R20h wrapper ping control (ctl/pingwrap.Cache)", "pingwrap.", pingForwards)
 }
 
 // isStaleCompare: v is `time.Since(healthLastPing) > 3 * s.healthCheckInterval()`
